@@ -80,7 +80,8 @@ def stage(binary, work, cases, limit, rnd, max_events=6000, workers=12):
         k, c = kc
         d = root / str(k)
         d.mkdir(parents=True, exist_ok=True)
-        if "mods" in c["prog"]:
+        prog = c.get("prog")        # None: a source without an AST - trace validation only
+        if prog and "mods" in prog:
             for name, text in c["files"].items():
                 (d / name).parent.mkdir(parents=True, exist_ok=True)
                 (d / name).write_text(text)
@@ -88,7 +89,7 @@ def stage(binary, work, cases, limit, rnd, max_events=6000, workers=12):
         else:
             (d / "main.ms").write_text(c["src"])
             entry = "main.ms"
-        rec, why = record(binary, d / entry, prog=c["prog"], max_events=max_events)
+        rec, why = record(binary, d / entry, prog=prog, max_events=max_events)
         if rec is not None:
             rec["id"] = c["id"]
         return c, rec, why
@@ -117,12 +118,12 @@ def report(rep, res, what):
         c = res["by_id"][cid]
         rep.violation(f"vm-trace-rejected {cid}",
                       f"{what}: the real interpreter's execution is not a behaviour of the value machine MSVMV: event #{s['l']} {s['event']}; machine at {s['top']} frames={s['fd']} activations={s['ad']} status={s['st']} {s['why']}",
-                      dict(case=cid, verdict=s, vm=True, prog=c["prog"], files=c.get("files") or {"main.ms": c["src"]}, how="record MSCRIPT_VERIF_TRACE + MSCRIPT_VERIF_DUMP of `mscript run main.ms -q`, validate with spec/TraceVMV.tla"))
+                      dict(case=cid, verdict=s, vm=True, prog=c.get("prog"), files=c.get("files") or {"main.ms": c["src"]}, how="record MSCRIPT_VERIF_TRACE + MSCRIPT_VERIF_DUMP of `mscript run main.ms -q`, validate with spec/TraceVMV.tla"))
     for cid, x in res["xlate"].items():
         c = res["by_id"][cid]
         rep.violation(f"xlate {cid}",
                       f"{what}: the compiled code, executed by the value machine, prints {x['vm_out']} ({x['st']} {x['why']}) but the source semantics prescribes {x['src_out']} ({x['src_status']})",
-                      dict(case=cid, verdict=x, vm=True, prog=c["prog"], files=c.get("files") or {"main.ms": c["src"]}, how="compile, dump (MSCRIPT_VERIF_DUMP), run spec/MSVMV.tla on the dump and MSLang!Run on the AST"))
+                      dict(case=cid, verdict=x, vm=True, prog=c.get("prog"), files=c.get("files") or {"main.ms": c["src"]}, how="compile, dump (MSCRIPT_VERIF_DUMP), run spec/MSVMV.tla on the dump and MSLang!Run on the AST"))
     return dict(vm_traces_sampled=res["sampled"], vm_traces_validated=res["recorded"], vm_traces_accepted=len(res["accepted"]),
                 vm_out_of_model=len(res["oom"]), vm_out_of_model_reasons=sorted({o["why"] for o in res["oom"].values()})[:12],
                 vm_not_recorded=len(res["skipped"]), vm_events=res["events"], vm_opcodes_exercised=res["ops"],
